@@ -28,6 +28,10 @@ class C20(WrapHarness):
                     'n': 3, 'wmax': 8 if q else 12, 'gaps': ['', '', '']})
         out.append({'feat': 'full', 'algo': 'F', 'sep': 'A', 'split': 'N', 'bw': False, 'cols': 2, 'gen': 'symallx',
                     'tokens': (), 'n': 2, 'wmax': 5 if q else 8, 'gaps': 'sym', 'gmax': 1, 'gcl': (1,) if q else (1, 3)})
+        # wide columns (padding of up to 48 / 80 columns, empty cells): thresholds in the padding arithmetic
+        for cols in (1, 2):
+            out.append({'feat': 'full', 'algo': 'F', 'sep': 'A', 'split': 'H', 'bw': True, 'cols': cols, 'gen': 'tmpl',
+                        'tmpl': 'ab ?d e', 'tname': 'tiny', 'wmax': 48 if q else 80, 'gaps': ['', ' ', '']})
         # sentence templates: realistic cell contents, total widths up to 24 / 40
         for cols in (2, 3):
             for t in (('short',) if q else ('short', 'sentence', 'wide', 'longword')):
